@@ -240,6 +240,11 @@ func buildC14Custom(id, site string, roles, results []string) *Scenario {
 	sT, tT := space.N(sd), space.N(td)
 	// function pair: what the custom function converts
 	var fs, ft *space.Ty
+	regex := site == "extend-regex"
+	if regex {
+		site = "extend"
+		sc.Desc["class"] = "site=extend-regex"
+	}
 	switch site {
 	case "extend", "default":
 		fs, ft = sT, tT
@@ -394,10 +399,17 @@ func buildC14Custom(id, site string, roles, results []string) *Scenario {
 	switch site {
 	case "extend":
 		sc.Decls = []*space.Decl{sd, td}
-		sc.ConvLines = append(sc.ConvLines, "extend "+fn)
+		if regex {
+			sc.ConvLines = append(sc.ConvLines, "extend "+fn+".*")
+		} else {
+			sc.ConvLines = append(sc.ConvLines, "extend "+fn)
+		}
 		sc.FuncsSrc = fmt.Sprintf("%s\nfunc %s(%s) %s { %s }\n", strings.Join(fnDoc, "\n"), fn, strings.Join(params, ", "), result, ret)
 		if cust != nil && reject == "" {
 			conv.Extends = append(conv.Extends, cust)
+		}
+		if regex && reject == "" && (cust == nil || strings.HasSuffix(cust.Name, "Unused")) {
+			// the only function matching the pattern has a usable convert signature for another pair: fine, it is unused
 		}
 	case "default":
 		sc.Decls = []*space.Decl{sd, td}
@@ -474,7 +486,7 @@ func C14Scenarios(tier string) []*Scenario {
 			}
 		}
 	}
-	for _, site := range []string{"extend", "mapfunc", "default", "structmethod"} {
+	for _, site := range []string{"extend", "extend-regex", "mapfunc", "default", "structmethod"} {
 		for _, roles := range orderedSelections([]string{"SA", "SB", "CX", "CV"}, 3) {
 			for _, res := range sequences(c14Results, 2) {
 				if site == "structmethod" && (containsStr(roles, "CV") || len(roles) > 2) {
